@@ -2,9 +2,10 @@
 # Nothing from /repo/_build is used. Header dependencies (-MMD) make an edited
 # header recompile exactly the translation units that include it.
 REPO    ?= /repo
-B       := build
+B       ?= build
+override B := $(abspath $(B))
 CCACHE  := $(shell command -v ccache 2>/dev/null)
-CXX     := $(if $(CCACHE),CCACHE_DIR=$(CURDIR)/$(B)/ccache ccache g++,g++)
+CXX     := $(if $(CCACHE),CCACHE_DIR=$(CURDIR)/build/ccache ccache g++,g++)
 # CRAB_VERIF is the guard for instrumentation hooks in /repo (see MANIFEST.hooks)
 CXXFLAGS := -std=c++11 -O1 -DNDEBUG -DCRAB_VERIF -w -I$(B)/include -I$(REPO)/include -Iharness
 LDLIBS  := -lgmp
